@@ -209,6 +209,11 @@ fn bases() -> Vec<FullCfg> {
 }
 
 pub fn all_configs() -> Vec<FullCfg> {
+    all_configs_depth(2)
+}
+
+/// Every deviation of at most `depth` (2 or 3) fields; three-field deviations only from the default base.
+pub fn all_configs_depth(depth: usize) -> Vec<FullCfg> {
     let fields = field_values();
     let mut out: Vec<FullCfg> = Vec::new();
     let mut seen = std::collections::HashSet::new();
@@ -225,11 +230,20 @@ pub fn all_configs() -> Vec<FullCfg> {
                 let mut c1 = b.clone();
                 f(&mut c1);
                 push(c1.clone(), &mut out);
-                for (_, vj) in fields.iter().skip(i + 1) {
+                for (j, (_, vj)) in fields.iter().enumerate().skip(i + 1) {
                     for g in vj {
                         let mut c2 = c1.clone();
                         g(&mut c2);
-                        push(c2, &mut out);
+                        push(c2.clone(), &mut out);
+                        if depth >= 3 && b == FullCfg::default_point() {
+                            for (_, vk) in fields.iter().skip(j + 1) {
+                                for h in vk {
+                                    let mut c3 = c2.clone();
+                                    h(&mut c3);
+                                    push(c3, &mut out);
+                                }
+                            }
+                        }
                     }
                 }
             }
@@ -363,7 +377,8 @@ pub fn run(args: &Args, rep: &Arc<Report>) {
         rep.set_rule("replay of one recorded configuration");
         return;
     }
-    let cfgs = all_configs();
+    let thorough = args.tier == "thorough";
+    let cfgs = all_configs_depth(if thorough { 3 } else { 2 });
     let n = cfgs.len();
     let chunk = 16;
     par_for(
@@ -381,5 +396,6 @@ pub fn run(args: &Args, rep: &Arc<Report>) {
         },
     );
     rep.extra("configurations", json!(n));
-    rep.set_rule("every single- and two-field deviation from three valid base configurations (default, all-minimum, all-maximum); per field {min-1, min, middle, max, max+1, 2^8+k, 2^32+k, usize::MAX}, alpha over {Rectangle, -0.0, -eps, 0, 2^-17, 0.5, 1, 1+eps, NaN, +-inf, +-subnormal, 2}, both OrderSel variants, all booleans; oracle (a): into_verified().is_ok() == (every field inside the documented range) and verify() agrees; oracle (b): every accepted in-range configuration encodes 7 probe inputs (+1 at its own block size) without panic, decodable losslessly by the reference decoder and claxon; non-trivial = an accepted in-range configuration");
+    rep.extra("deviation_depth", json!(if thorough { 3 } else { 2 }));
+    rep.set_rule("every single- and two-field deviation from three valid base configurations (default, all-minimum, all-maximum), in the thorough tier also every three-field deviation from the default; per field {min-1, min, middle, max, max+1, 2^8+k, 2^32+k, usize::MAX}, alpha over {Rectangle, -0.0, -eps, 0, 2^-17, 0.5, 1, 1+eps, NaN, +-inf, +-subnormal, 2}, both OrderSel variants, all booleans; oracle (a): into_verified().is_ok() == (every field inside the documented range) and verify() agrees; oracle (b): every accepted in-range configuration encodes 7 probe inputs (+1 at its own block size) without panic, decodable losslessly by the reference decoder and claxon; non-trivial = an accepted in-range configuration");
 }
